@@ -25,18 +25,19 @@ import GherkinVerif.Lemmas.TextMain
 import GherkinVerif.Lemmas.C02Cert
 import GherkinVerif.Gen.ParserTable
 import GherkinVerif.Gen.Dialects
+import GherkinVerif.KDecide
 namespace GV
 
 /-! facts about the regenerated tables -/
 
 /-- the C05 keyword facts, and: no keyword starts with `"` or a backtick -/
-theorem C02T_fact_dialects : Spec.textDialectFacts Gen.dialects = true := by decide +kernel
+theorem C02T_fact_dialects : Spec.textDialectFacts Gen.dialects = true := by kdecide
 /-- look-aheads uniform, tag states closed, guarded tests followed by tag-line tests -/
-theorem C02T_fact_queue : Spec.queueFacts Gen.parserTable = true := by decide +kernel
+theorem C02T_fact_queue : Spec.queueFacts Gen.parserTable = true := by kdecide
 /-- comment and blank lines are accepted by some test of every state -/
-theorem C02T_fact_comment_blank : Spec.commentBlankTested Gen.parserTable = true := by decide +kernel
+theorem C02T_fact_comment_blank : Spec.commentBlankTested Gen.parserTable = true := by kdecide
 /-- no look-ahead expects or skips `EOF` / `Other` -/
-theorem C02T_fact_lookaheads : Spec.lookaheadsStopAtEOF Gen.parserTable = true := by decide +kernel
+theorem C02T_fact_lookaheads : Spec.lookaheadsStopAtEOF Gen.parserTable = true := by kdecide
 
 /-! ### (3) each line has exactly one intrinsic kind -/
 
@@ -152,13 +153,13 @@ example : (MState.init Gen.dialects (lit "en")).map (fun μ =>
       (Spec.textAccepts Gen.dialects Gen.parserTable 0 (μ.reset Gen.dialects) (splitLines C02T_demo),
        Spec.textKinds Gen.dialects Gen.parserTable 0 (μ.reset Gen.dialects) (splitLines C02T_demo))) =
     some (true, [.Language, .FeatureLine, .ScenarioLine, .StepLine, .DocStringSeparator, .Other,
-      .DocStringSeparator, .TagLine, .Empty, .ExamplesLine, .TableRow]) := by decide +kernel
+      .DocStringSeparator, .TagLine, .Empty, .ExamplesLine, .TableRow]) := by kdecide
 
 /-- a tag with whitespace: rejected at text level because a tested line raises -/
 example : (MState.init Gen.dialects (lit "en")).map (fun μ =>
       (Spec.textAccepts Gen.dialects Gen.parserTable 0 (μ.reset Gen.dialects) (splitLines (lit "Feature: f\n@a b\nScenario: s\n")),
        Spec.textRaises Gen.dialects Gen.parserTable 0 (μ.reset Gen.dialects) (splitLines (lit "Feature: f\n@a b\nScenario: s\n")))) =
-    some (false, true) := by decide +kernel
+    some (false, true) := by kdecide
 
 /-- twelve ragged tables, then an unexpected line -/
 def C02T_capDoc : Str :=
@@ -172,6 +173,6 @@ theorem C02_text_cap_counterexample : (MState.init Gen.dialects (lit "en")).map 
         | .rejected es comp => (es.length, comp, es.all fun e => e.kind == ErrKind.raggedTable)
         | _ => (0, false, false),
        Spec.textAccepts Gen.dialects Gen.parserTable 0 (μ.reset Gen.dialects) (splitLines C02T_capDoc))) =
-    some ((11, true, true), false) := by decide +kernel
+    some ((11, true, true), false) := by kdecide
 
 end GV
